@@ -21,6 +21,37 @@ func execsFor(tier string, quick, thorough int) int {
 
 func runC01(env *Env, rc *RunCtx) {
 	c := GenCase(rc.CaseTape, GenOpts{Enc: -1, Gadgets: true, MinParens: false})
+	// one case in ten: parents of two kinds that carry the SAME object name (the
+	// uuid of an object is derived from its name, not from its namespace): view
+	// and its negation are inherited through a union-typed relation
+	if t := rc.CaseTape; t.Bool(1, 10) {
+		user := []TypeRef{{NS: "U"}}
+		kind := func(name string) *NSDef {
+			return &NSDef{Name: name, Rels: []*RelDef{{Name: "viewers", Types: user}, {Name: "view", Rewrite: &Expr{Kind: ExIncludes, Rel: "viewers"}}}}
+		}
+		trav := &Expr{Kind: ExTraverse, Rel: "parents", Computed: "view", ViaPermits: true}
+		doc := &NSDef{Name: "Doc", Rels: []*RelDef{{Name: "parents", Types: []TypeRef{{NS: "Folder"}, {NS: "Project"}}},
+			{Name: "view", Rewrite: trav}, {Name: "hidden", Rewrite: &Expr{Kind: ExNot, Children: []*Expr{{Kind: ExTraverse, Rel: "parents", Computed: "view", ViaPermits: true}}}}}}
+		enc := c.Cfg.Enc
+		if enc == EncNone {
+			enc = EncOPL
+		}
+		c.Cfg = &Config{Enc: enc, Strict: c.Cfg.Strict, NS: []*NSDef{{Name: "U"}, kind("Folder"), kind("Project"), doc}}
+		names := []string{"alpha", "beta"}
+		c.Tuples = nil
+		for _, d := range []string{"d0", "d1"} {
+			n := names[t.Choose(2)]
+			c.Tuples = append(c.Tuples,
+				Tuple{NS: "Doc", Obj: d, Rel: "parents", Sub: Subject{Set: &SetRef{NS: "Folder", Obj: n}}},
+				Tuple{NS: "Doc", Obj: d, Rel: "parents", Sub: Subject{Set: &SetRef{NS: "Project", Obj: n}}})
+		}
+		for i := 0; i < t.Range(1, 3); i++ {
+			c.Tuples = append(c.Tuples, Tuple{NS: []string{"Folder", "Project"}[t.Choose(2)], Obj: names[t.Choose(2)], Rel: "viewers", Sub: Subject{ID: fmt.Sprintf("u%d", t.Choose(2))}})
+		}
+		c.Query = Tuple{NS: "Doc", Obj: []string{"d0", "d1"}[t.Choose(2)], Rel: []string{"view", "hidden"}[t.Choose(2)], Sub: Subject{ID: fmt.Sprintf("u%d", t.Choose(2))}}
+		c.Conforming = true
+		rc.Count("probe_same_object_name_in_two_namespaces", 1)
+	}
 	rc.Rec.CaseHash = fmt.Sprintf("%016x", c.Hash())
 	ref := RefCheck(c.Cfg, c.Tuples, c.Query)
 	if ref.NonStratified {
